@@ -214,7 +214,9 @@ func (c *expCompiler) ProcessUnOpExp(u ast.UnOp) {
 }
 
 func (c *expCompiler) CompileExp(e ast.ExpNode) {
+	c.enterNode(e)
 	e.ProcessExp(c)
+	c.leaveNode()
 }
 
 //
